@@ -34,7 +34,7 @@ structure CRow where
   ent : List (Nat × Rat)
   rel : Rel
   rhs : Rat
-  deriving Repr
+  deriving Repr, DecidableEq
 
 /-- value of the left-hand side under a valuation of the LP columns -/
 def lhs (u : Nat → Rat) : List (Nat × Rat) → Rat
